@@ -133,7 +133,8 @@ def run_case(case):
                 fails.append({"sig": "untouched_text_changed", "detail": {"text": txt[:80]}})
             if "\r\n" in txt.replace("\r\n", "\n") or "\r" in txt:
                 fails.append({"sig": "newlines_not_as_produced", "detail": {"text": repr(txt[:80])}})
-        stray = [n for n in after if n not in before and n != target_out]
+        legit = {n.replace(".sql", "_fixed.sql") for n in names} if case["suffix"] else set()
+        stray = [n for n in after if n not in before and n != target_out and n not in legit]
         if stray:
             fails.append({"sig": "clean_run_left_stray_file", "detail": {"stray": stray}})
     finally:
